@@ -9,6 +9,7 @@ CONSTANTS
     CapN = 0
     Cache = 0
     Compress = TRUE
+    ExtK = 0
     CapProbe = FALSE
     Debug = FALSE
     HookMode = "ok"
